@@ -68,7 +68,8 @@ class Multiplication:
             "for a multiplication factor of {} ".format(factor)+
             "({} found)".format(len(copy_names)))
         for i, cn in enumerate(copy_names):
-          if cn in self.names or cn in copy_names[:i]:
+          if cn in self.names or self.line(cn) is not None or \
+             cn in copy_names[:i]:
             raise gfapy.NotUniqueError(
               "The copy name '{}' is already in use".format(cn))
       if track_origin and not s.get(origin_tag):
@@ -93,7 +94,8 @@ class Multiplication:
     offset = 0
     for i in range(first,factor+first-1):
       name = "{}*{}".format(segment_name, i+offset)
-      while name in self.names:
+      while name in self.names or self.line(name) is not None:
+        # (also a name which is so far only referred to is in use)
         offset+=1
         name = "{}*{}".format(segment_name, i+offset)
       retval.append(name)
